@@ -427,6 +427,63 @@ def run(only=None):
         s.extra["base_words"] = bases
         s.done()
 
+
+    if want("argument_containers_and_histories"):
+        s = rep.sub("argument_containers_and_histories",
+                    "basis + seed messages x 3 masks with message / mask / word handed over as bytearray: same parity, same verdict, "
+                    "arguments unchanged; every public function x 9 out-of-range arguments followed by valid generate / check / "
+                    "multiply calls (reference results); generate / check / multiply called again and again in one process (depth 3, "
+                    "or 2^16+256 when a call is seen to leave class/module data changed, and always in the thorough tier)")
+        msgs = [bytes(9), bytes([0xFF] * 9)] + [single(p_, v) for p_ in range(9) for v in (0x01, 0x80, 0xFF)] + [env.det_bytes(f"c11-cont-{i}", 9) for i in range(4)]
+        for msg in msgs:
+            for mask in (MASK_NONE, MASK_VOICE_LC, MASK_TERMINATOR):
+                case = {"message": msg.hex(), "mask": mask.hex()}
+                try:
+                    want_word = msg + xor3(bytes(gf256.parity(msg)), mask)
+                    a_, m_ = bytearray(msg), bytearray(mask)
+                    got = bytes(RS.generate(a_, m_))
+                    if got != want_word:
+                        s.violation("generate_differs_for_bytearray_arguments", {**case, "got": got.hex()})
+                    if bytes(a_) != msg or bytes(m_) != mask:
+                        s.violation("generate_alters_bytearray_argument", case)
+                    w_, m_ = bytearray(want_word), bytearray(mask)
+                    if RS.check(w_, m_) is not True:
+                        s.violation("check_rejects_codeword_in_bytearray", case)
+                    bad = bytearray(want_word)
+                    bad[3] ^= 0x40
+                    if RS.check(bad, m_) is not False:
+                        s.violation("check_accepts_corrupted_word_in_bytearray", case)
+                    if bytes(w_) != want_word or bytes(m_) != mask:
+                        s.violation("check_alters_bytearray_argument", case)
+                except Exception as e:  # noqa: BLE001
+                    s.violation("exception_bytearray_arguments:" + exc_sig(e), case, repr(e))
+                s.case(nontrivial=True, calls=3, outcome=mask.hex(), sample=case if len(s.samples) < 1 else None)
+        from mc import hist
+        import okdmr.dmrlib.etsi.fec.reed_solomon_12_9_4 as _mrs
+        pmsg = env.det_bytes("c11-oor", 9)
+        pword = pmsg + xor3(bytes(gf256.parity(pmsg)), MASK_VOICE_LC)
+        pbad = bytes([pword[0] ^ 1]) + pword[1:]
+        probes = [
+            ("generate", lambda: bytes(RS.generate(pmsg, MASK_VOICE_LC))),
+            ("generate_default_mask", lambda: bytes(RS.generate(pmsg))),
+            ("check_codeword", lambda: RS.check(pword, MASK_VOICE_LC)),
+            ("check_corrupted", lambda: RS.check(pbad, MASK_VOICE_LC)),
+            ("multiply", lambda: tuple(RS.log_multiply(a, b) for a, b in ((0, 7), (1, 255), (0x80, 0x1D), (255, 255), (2, 0x8E)))),
+        ]
+        funcs = {
+            "generate": RS.generate, "check": lambda a: RS.check(a, MASK_NONE), "check_mask": lambda a: RS.check(pword, a),
+            "generate_mask": lambda a: RS.generate(pmsg, a), "xor_bytes": lambda a: RS.xor_bytes(a, b"\x01\x02\x03"),
+            "log_multiply": lambda a: RS.log_multiply(a, 3),
+        }
+        bad_args = [
+            ("empty", lambda: b""), ("bytes_8", lambda: bytes(8)), ("bytes_10", lambda: bytes(range(10))), ("bytes_13", lambda: bytes(range(13))),
+            ("bytes_2", lambda: b"\x01\x02"), ("int_256", lambda: 256), ("int_minus_1", lambda: -1), ("str", lambda: "123456789"), ("none", lambda: None),
+        ]
+        hist.poisoned_histories(s, funcs, bad_args, probes)
+        s.declared = None
+        hist.long_history(s, [RS, _mrs], probes, always=thorough)
+        s.done()
+
     rep.bounds = {
         "multiply": "all 65 536 pairs",
         "messages": "zero, all single-symbol, two-symbol (quick 6x6 values, thorough all 255x255), 8 seed words; not all 2^72 "
